@@ -11,6 +11,7 @@ import Mfi.Lemmas.ResL
 import Mfi.Lemmas.BankL
 import Mfi.Props.C03
 import Mfi.Model.Ix
+import Mfi.Model.Venue
 
 namespace Mfi.Props.C02
 open Mfi Mfi.Fx Mfi.Bank Mfi.Gen
@@ -490,5 +491,117 @@ theorem purge_spec {b b' : Bank} {x : Balance} {x' : Option Balance} {t : Int}
   · rw [e2]
   · rw [e2]
   · rw [← hx, hclose]
+
+/-! ### venue-backed banks (Kamino): what marginfi makes of the venue's answer
+
+  Model Mfi/Model/Venue.lean — the CPI into Kamino is a parameter: the model takes what marginfi reads before and after it
+  (obligation collateral, intermediary vault balance) and says which outcomes it accepts, what it books and what it pays.
+  Diffed against the REAL kamino_deposit / kamino_withdraw through dispatch by the `venue` family (Kamino itself is played by
+  a stand-in in the harness's CPI dispatcher, which can be told to answer a few units off). -/
+section venue
+open Mfi.Ix Mfi.Venue
+
+theorem withinOne_iff (a e : Int) : withinOne a e = true ↔ (a - e ≤ 1 ∧ e - a ≤ 1) := by
+  unfold withinOne; simp
+
+/-- **deposit**: an accepted Kamino deposit books exactly the collateral that arrived in the bank's obligation, that amount
+    is within one unit of marginfi's own conversion of the deposit, and the bank total moves by exactly what the position moves -/
+theorem kamino_deposit_spec {now expected pre post t : Int} {b b' : Bank} {bal : Option Balance} {x' : Option Balance}
+    (h : kaminoDeposit now b bal expected pre post = .ok (b', x', t)) :
+    t = post - pre ∧ 0 ≤ t ∧ t - expected ≤ 1 ∧ expected - t ≤ 1 ∧
+    ∃ y, x' = some y ∧ b'.sa - b.sa = y.a - (bal.getD (freshBalance b now)).a ∧
+                        b'.sl - b.sl = y.l - (bal.getD (freshBalance b now)).l := by
+  unfold kaminoDeposit at h
+  split at h
+  · cases h
+  · rename_i hlt
+    split at h
+    · cases h
+    · rename_i hw
+      have hw' : withinOne (post - pre) expected = true := by
+        cases hwo : withinOne (post - pre) expected <;> simp_all
+      obtain ⟨hw1, hw2⟩ := (withinOne_iff _ _).mp hw'
+      obtain ⟨r, hr, h⟩ := Res.bind_ok h
+      injection h with h
+      injection h with hb hrest
+      injection hrest with hx ht
+      subst hb; subst hx; subst ht
+      have hd := increase_delta_eq (b0 := b) (x0 := bal.getD (freshBalance b now)) (b' := r.1) (x' := r.2)
+        (now := now) (delta := ofInt (post - pre)) (t := .depositOnly) (by rw [hr])
+      exact ⟨rfl, by omega, hw1, hw2, r.2, rfl, hd.1, hd.2⟩
+
+/-- **a venue that credits something else than announced is refused**: when the obligation's collateral moved by an amount
+    two or more units away from marginfi's own conversion, the deposit is not accepted (nothing is booked) -/
+theorem kamino_deposit_rejects_misreport {now expected pre post : Int} {b : Bank} {bal : Option Balance}
+    (hm : 1 < (post - pre) - expected ∨ 1 < expected - (post - pre)) :
+    ∀ o, kaminoDeposit now b bal expected pre post ≠ .ok o := by
+  intro o h
+  obtain ⟨b', x', t⟩ := o
+  obtain ⟨ht, _, h1, h2, _⟩ := kamino_deposit_spec h
+  omega
+
+/-- **withdraw**: an accepted Kamino withdrawal took exactly the collateral out of the obligation that the position gave up,
+    paid the user exactly what arrived in the intermediary vault, and that amount is within one unit of marginfi's own
+    conversion of the collateral; a partial withdrawal moves the bank total by what the position moves, a full one removes
+    exactly the position's shares -/
+theorem kamino_withdraw_spec {now amount obPre obPost vPre vPost : Int} {all : Bool} {expectedOf : Int → Int}
+    {b : Bank} {x : Balance} {o : WOut}
+    (h : kaminoWithdraw now b (some x) amount all expectedOf obPre obPost vPre vPost = .ok o) :
+    obPre - obPost = o.collateral ∧ o.paid = vPost - vPre ∧ 0 ≤ o.paid ∧
+    o.paid - expectedOf o.collateral ≤ 1 ∧ expectedOf o.collateral - o.paid ≤ 1 ∧
+    (all = false → o.collateral = amount ∧ o.bank.sa - b.sa = o.bal.a - x.a ∧ o.bank.sl - b.sl = o.bal.l - x.l) ∧
+    (all = true → o.bank.sa = b.sa - x.a ∧ o.bal.a = 0 ∧ o.bal.l = 0) := by
+  unfold kaminoWithdraw at h
+  simp only at h
+  obtain ⟨⟨b1, x1, c⟩, hstep, h⟩ := Res.bind_ok h
+  simp only at h
+  split at h
+  · cases h
+  · split at h
+    · cases h
+    · rename_i hc
+      split at h
+      · cases h
+      · split at h
+        · cases h
+        · rename_i hw
+          have hw' : withinOne (vPost - vPre) (expectedOf c) = true := by
+            cases hwo : withinOne (vPost - vPre) (expectedOf c) <;> simp_all
+          obtain ⟨hw1, hw2⟩ := (withinOne_iff _ _).mp hw'
+          injection h with h
+          subst h
+          have hc' : obPre - obPost = c := by omega
+          refine ⟨hc', rfl, (by show (0 : Int) ≤ vPost - vPre; omega), hw1, hw2, ?_, ?_⟩
+          · intro ha
+            subst ha
+            simp only [Bool.false_eq_true, ↓reduceIte] at hstep
+            cases hd : decreaseBalance b x now (ofInt amount) .withdrawOnly with
+            | error e => rw [hd] at hstep; cases hstep
+            | ok p =>
+              rw [hd] at hstep
+              simp only [Except.map] at hstep
+              injection hstep with hstep
+              injection hstep with e1 e2
+              injection e2 with e2 e3
+              subst e1; subst e2; subst e3
+              have := decrease_delta_eq (b0 := b) (x0 := x) (b' := p.1) (x' := p.2) (now := now)
+                (delta := ofInt amount) (t := .withdrawOnly) (by rw [hd])
+              exact ⟨rfl, this.1, this.2⟩
+          · intro ha
+            subst ha
+            simp only [↓reduceIte] at hstep
+            have := withdraw_all_delta hstep
+            exact ⟨this.1, this.2.2.1, this.2.2.2.1⟩
+
+/-- **a venue that takes another amount of collateral than asked is refused** -/
+theorem kamino_withdraw_rejects_wrong_collateral {now amount obPre obPost vPre vPost : Int} {all : Bool}
+    {expectedOf : Int → Int} {b : Bank} {x : Balance} {o : WOut}
+    (h : kaminoWithdraw now b (some x) amount all expectedOf obPre obPost vPre vPost = .ok o) (hna : all = false) :
+    obPre - obPost = amount := by
+  obtain ⟨h1, _, _, _, _, h6, _⟩ := kamino_withdraw_spec h
+  rw [h1, (h6 hna).1]
+
+
+end venue
 
 end Mfi.Props.C02
